@@ -127,6 +127,11 @@ func buildRuleList(rules ruleContainer) (ruleList, error) {
 	sort.Slice(points, func(i, j int) bool {
 		return bytes.Compare(points[i].key, points[j].key) < 0
 	})
+	if len(points[0].key) > 0 {
+		// no rule starts at the beginning of the key space: the keys before the first start key have no rule.
+		return ruleList{}, errs.ErrBuildRuleList.FastGenByArgs(fmt.Sprintf("no rule for range {, %s}",
+			strings.ToUpper(hex.EncodeToString(points[0].key))))
+	}
 
 	// determine rules for each range.
 	var rl ruleList
